@@ -64,7 +64,7 @@ func pathLoader(p string) (json.RawMessage, error) {
 }
 
 func main() {
-	maxStack := 8 << 20
+	maxStack := 256 << 20
 	if v := os.Getenv("VERIF_MAXSTACK_MB"); v != "" {
 		var n int
 		if _, err := fmt.Sscanf(v, "%d", &n); err == nil && n > 0 {
